@@ -620,6 +620,7 @@ Ltac gnorm :=
   cbn [set_nodes set_edges set_lists g_meta g_nodes g_edges g_nx g_adj g_variables
        g_lag_lists g_var_lists opt outer inner];
   rewrite ?cnt_map_app, ?cnt_flat_map_app, ?cnt_app;
+  unfold fresh_mref;
   cbn [map flat_map outer inner];
   rewrite ?app_nil_r, ?cnt_nil.
 
@@ -685,7 +686,7 @@ Proof.
     + exists (fun x => caches (s_graph s) x + cnt [outer old] x), (cnt (inner old)),
         (fun _ => 0), (fun _ => 0).
       intros x. unfold caches. gnorm.
-      rewrite (cnt_map_remove_nth outer i _ x E), (cnt_flat_map_remove_nth inner i _ x E). lia.
+      rewrite (cnt_map_remove_nth outer i _ _ x E), (cnt_flat_map_remove_nth inner i _ _ x E). lia.
     + exists (caches (s_graph s)), (fun _ => 0), (fun _ => 0), (fun _ => 0).
       intros x. unfold caches. gnorm. rewrite (remove_nth_none _ _ E). lia.
   - (* delete edge *)
@@ -694,7 +695,7 @@ Proof.
     + exists (fun x => caches (s_graph s) x + cnt [outer old] x), (cnt (inner old)),
         (fun _ => 0), (fun _ => 0).
       intros x. unfold caches. gnorm.
-      rewrite (cnt_map_remove_nth outer i _ x E), (cnt_flat_map_remove_nth inner i _ x E). lia.
+      rewrite (cnt_map_remove_nth outer i _ _ x E), (cnt_flat_map_remove_nth inner i _ _ x E). lia.
     + exists (caches (s_graph s)), (fun _ => 0), (fun _ => 0), (fun _ => 0).
       intros x. unfold caches. gnorm. rewrite (remove_nth_none _ _ E). lia.
   - (* replace node *)
@@ -704,7 +705,7 @@ Proof.
     exists (fun x => caches (s_graph s) x + cnt [outer old] x), (fun _ => 0),
       (cnt [n]), (fun _ => 0).
     intros x. unfold caches. pose proof (cnt_single n x) as [S1 S2]. gnorm. fold n.
-    rewrite (cnt_map_remove_nth outer i _ x E), (cnt_flat_map_remove_nth inner i _ x E). lia.
+    rewrite (cnt_map_remove_nth outer i _ _ x E), (cnt_flat_map_remove_nth inner i _ _ x E). lia.
   - (* drop a per-variable index list *)
     split; [reflexivity|]. split; [cbn [s_next]; lia|].
     exists (fun x => caches (s_graph s) x + (cnt (g_var_lists (s_graph s)) x
@@ -737,3 +738,605 @@ Proof.
   destruct (D x) as (D1 & D2 & D3 & D4). destruct (H x) as (Hb & Hs).
   unfold SepC, BoundedC in *. unfold EO, EI in *. rewrite He. lia.
 Qed.
+
+(** * Main theorems: separation is an invariant of every history *)
+
+Theorem sep_init : Sep init.
+Proof.
+  split.
+  - intros l Hl. vm_compute in Hl. destruct Hl as [<-|[]]. cbn; lia.
+  - vm_compute. constructor; [intros []|constructor].
+Qed.
+
+Theorem sep'_init : Sep' init.
+Proof. apply sep_sep', sep_init. Qed.
+
+(** [Sep'] ([Sep] with the [to_dict] nested-value carve-out) is preserved by EVERY operation. *)
+Theorem sep_step s o : Sep' s -> Sep' (step s o).
+Proof.
+  intros H; destruct o as [x|k|m|i|i]; cbn [step].
+  - apply step_export_sep', H.
+  - eapply gdelta_sep'; [apply step_gmeta_delta|exact H].
+  - eapply gdelta_sep'; [apply step_gmut_delta|exact H].
+  - eapply gdelta_sep'; [apply gdelta_refl_log|exact H].
+  - eapply gdelta_sep'; [apply gdelta_refl_log|exact H].
+Qed.
+
+Theorem sep_run ops : forall s, Sep' s -> Sep' (run s ops).
+Proof.
+  unfold run; induction ops as [|o ops IH]; intros s H; cbn [fold_left]; [exact H|].
+  apply IH, sep_step, H.
+Qed.
+
+Corollary sep_run_init ops : Sep' (run init ops).
+Proof. apply sep_run, sep'_init. Qed.
+
+(** Container-level separation holds after every history ([to_dict] included). *)
+Corollary sep_outer_run_init ops : SepOuter (run init ops).
+Proof. apply sep'_sep_outer, sep_run_init. Qed.
+
+(** Every operation OTHER than [to_dict] preserves full [Sep]. *)
+Definition op_is_to_dict (o : op) : bool :=
+  match o with X (ExportDict _) => true | _ => false end.
+
+Theorem sep_full_step s o : op_is_to_dict o = false -> Sep s -> Sep (step s o).
+Proof.
+  intros Ho H; destruct o as [x|k|m|i|i]; cbn [step].
+  - apply step_export_sep; [destruct x; try reflexivity; discriminate Ho|exact H].
+  - eapply gdelta_sep; [apply step_gmeta_delta|exact H].
+  - eapply gdelta_sep; [apply step_gmut_delta|exact H].
+  - eapply gdelta_sep; [apply gdelta_refl_log|exact H].
+  - eapply gdelta_sep; [apply gdelta_refl_log|exact H].
+Qed.
+
+Theorem sep_full_run ops : forall s,
+  forallb (fun o => negb (op_is_to_dict o)) ops = true -> Sep s -> Sep (run s ops).
+Proof.
+  unfold run; induction ops as [|o ops IH]; intros s Hops H; cbn [fold_left]; [exact H|].
+  cbn [forallb] in Hops. apply andb_true_iff in Hops. destruct Hops as [Ho Hops].
+  apply IH; [exact Hops|]. apply sep_full_step; [|exact H].
+  destruct (op_is_to_dict o); [discriminate Ho|reflexivity].
+Qed.
+
+(** For [to_dict] itself: container-level separation. *)
+Theorem sep_outer_export_dict s ep : Sep s -> SepOuter (step s (ExportDict ep)).
+Proof. intros H. apply sep'_sep_outer, sep_step, sep_sep', H. Qed.
+
+(** * Boolean checkers are sound (used for the concrete witnesses and examples) *)
+
+Lemma memb_iff l ls : memb l ls = true <-> In l ls.
+Proof.
+  unfold memb; rewrite existsb_exists; split.
+  - intros (y & Hy & E). apply Nat.eqb_eq in E; subst; exact Hy.
+  - intros H; exists l; split; [exact H|apply Nat.eqb_refl].
+Qed.
+
+Lemma nodupb_iff l : nodupb l = true <-> NoDup l.
+Proof.
+  induction l as [|a l IH]; cbn [nodupb].
+  - split; [constructor|reflexivity].
+  - rewrite andb_true_iff, negb_true_iff, IH. fold (memb a l). split.
+    + intros [Hm Hn]. constructor; [|exact Hn]. intros Hin. apply memb_iff in Hin. congruence.
+    + intros Hnd. inversion Hnd as [|? ? Hnot Hnd']; subst. split; [|exact Hnd'].
+      destruct (memb a l) eqn:E; [|reflexivity]. apply memb_iff in E. contradiction.
+Qed.
+
+Lemma boundedb_iff s : boundedb s = true <-> Bounded s.
+Proof.
+  unfold boundedb, Bounded. rewrite forallb_forall. split; intros H l Hl.
+  - apply Nat.ltb_lt, H, Hl.
+  - apply Nat.ltb_lt, H, Hl.
+Qed.
+
+Lemma sepb_iff s : sepb s = true <-> Sep s.
+Proof. unfold sepb, Sep. rewrite andb_true_iff, boundedb_iff, nodupb_iff. tauto. Qed.
+
+Lemma sep_outerb_iff s : sep_outerb s = true <-> SepOuter s.
+Proof. unfold sep_outerb, SepOuter. rewrite andb_true_iff, boundedb_iff, nodupb_iff. tauto. Qed.
+
+Lemma sep'b_sound s : sep'b s = true -> Sep' s.
+Proof.
+  unfold sep'b, Sep'. rewrite !andb_true_iff, boundedb_iff, nodupb_iff, forallb_forall.
+  intros [[Hb Hn] Hf]. split; [exact Hb|]. split; [exact Hn|].
+  intros l Hs Hst. specialize (Hf l Hs). apply orb_true_iff in Hf. destruct Hf as [Hf|Hf].
+  - apply negb_true_iff in Hf. apply memb_iff in Hst. congruence.
+  - apply memb_iff, Hf.
+Qed.
+
+(** * The known finding: [to_dict] shares nested values *)
+
+(** A graph with one node whose metadata holds one nested mutable value
+    ([g.add_node('x', meta={'a': []})]). *)
+Definition one_node_state : state := run init [MutateGraph (GAddNode 1 true true)].
+
+(** The full statement, kept visible. *)
+Definition sep_full_step_statement : Prop := forall s o, Sep s -> Sep (step s o).
+
+Theorem to_dict_inner_shared_refuted :
+  exists s, Sep s /\ ~ Sep (step s (ExportDict [])).
+Proof.
+  exists one_node_state. split.
+  - apply sepb_iff. vm_compute. reflexivity.
+  - intros H. apply sepb_iff in H. vm_compute in H. discriminate H.
+Qed.
+
+Corollary sep_full_step_refuted : ~ sep_full_step_statement.
+Proof.
+  intros H. destruct to_dict_inner_shared_refuted as (s & Hs & Hn).
+  apply Hn, H, Hs.
+Qed.
+
+(** The shared identity, concretely: the nested value of the node's metadata (identity 2) is
+    reachable from the graph and from the dictionary; the dictionaries themselves differ. *)
+Example to_dict_shares_exactly_inner :
+  let s := step one_node_state (ExportDict []) in
+  g_nodes (s_graph s) = [{| outer := 1; inner := [2] |}] /\
+  map (fun e => flat_map h_meta (e_holders e)) (s_exports s)
+    = [[{| outer := 5; inner := [] |}; {| outer := 10; inner := [2] |}]] /\
+  sepb s = false /\ sep_outerb s = true /\ sep'b s = true.
+Proof. vm_compute. repeat split. Qed.
+
+(** * Mutating an export is invisible elsewhere; mutating the graph is invisible in exports *)
+
+Lemma content_log_writes s w l : content (log_writes s w) l = cnt w l + content s l.
+Proof. unfold content, log_writes; cbn [s_log]. apply count_occ_app. Qed.
+
+Lemma observe_log_writes s w ls :
+  (forall l, In l ls -> ~ In l w) -> observe (log_writes s w) ls = observe s ls.
+Proof.
+  intros H. unfold observe. apply map_ext_in. intros l Hl.
+  rewrite content_log_writes. apply H, cnt_notIn in Hl. lia.
+Qed.
+
+Lemma cnt_e_reach e x : cnt (e_reach e) x = cnt (e_outer e) x + cnt (e_inner e) x.
+Proof. unfold e_reach, reach, e_outer, e_inner. apply cnt_app. Qed.
+
+Lemma cnt_graph_locs s x :
+  cnt (g_outer (s_graph s) ++ g_inner (s_graph s)) x = GO s x + GI s x.
+Proof. rewrite cnt_app. reflexivity. Qed.
+
+Definition deep_inner (e : export) : list loc := if e_shallow e then [] else e_inner e.
+Definition shallow_inner (e : export) : list loc := if e_shallow e then e_inner e else [].
+
+Lemma e_inner_split e x : cnt (e_inner e) x = cnt (deep_inner e) x + cnt (shallow_inner e) x.
+Proof. unfold deep_inner, shallow_inner; destruct (e_shallow e); rewrite cnt_nil; lia. Qed.
+
+(** Bounds of one export (resp. two different exports) by the totals. *)
+Lemma export_le s i e x :
+  nth_error (s_exports s) i = Some e ->
+  cnt (e_outer e) x <= EO s x /\ cnt (e_inner e) x <= EI s x /\
+  cnt (deep_inner e) x <= ED s x /\ cnt (shallow_inner e) x <= ES s x.
+Proof.
+  intros E. apply nth_error_In in E. unfold EO, EI, ED, ES.
+  repeat split.
+  - apply (cnt_flat_map_in e_outer _ _ x E).
+  - apply (cnt_flat_map_in e_inner _ _ x E).
+  - apply (cnt_flat_map_in deep_inner _ _ x E).
+  - apply (cnt_flat_map_in shallow_inner _ _ x E).
+Qed.
+
+Lemma export_two_le s i j ei ej x :
+  i <> j -> nth_error (s_exports s) i = Some ei -> nth_error (s_exports s) j = Some ej ->
+  cnt (e_outer ei) x + cnt (e_outer ej) x <= EO s x /\
+  cnt (e_inner ei) x + cnt (e_inner ej) x <= EI s x /\
+  cnt (deep_inner ei) x + cnt (deep_inner ej) x <= ED s x.
+Proof.
+  intros Hij Ei Ej. unfold EO, EI, ED. repeat split.
+  - apply (cnt_flat_map_two e_outer _ _ _ _ _ x Hij Ei Ej).
+  - apply (cnt_flat_map_two e_inner _ _ _ _ _ x Hij Ei Ej).
+  - apply (cnt_flat_map_two deep_inner _ _ _ _ _ x Hij Ei Ej).
+Qed.
+
+(** ** The write set of [MutateExport i] is disjoint from the graph and from every other export *)
+
+Theorem writes_disjoint_graph s i l :
+  Sep s -> In l (writes s i) -> ~ In l (g_outer (s_graph s) ++ g_inner (s_graph s)).
+Proof.
+  rewrite sep_iff. intros H Hw. unfold writes in Hw.
+  destruct (nth_error (s_exports s) i) as [e|] eqn:E; [|contradiction].
+  apply cnt_In in Hw. rewrite cnt_e_reach in Hw. apply cnt_notIn. rewrite cnt_graph_locs.
+  destruct (export_le s i _ l E) as (L1 & L2 & _). destruct (H l) as [_ Hs]. lia.
+Qed.
+
+Theorem writes_disjoint_export s i j e l :
+  Sep s -> j <> i -> nth_error (s_exports s) j = Some e ->
+  In l (writes s i) -> ~ In l (e_reach e).
+Proof.
+  rewrite sep_iff. intros H Hji Ej Hw. unfold writes in Hw.
+  destruct (nth_error (s_exports s) i) as [ei|] eqn:Ei; [|contradiction].
+  apply cnt_In in Hw. rewrite cnt_e_reach in Hw. apply cnt_notIn. rewrite cnt_e_reach.
+  assert (Hij : i <> j) by congruence.
+  destruct (export_two_le s _ _ _ _ l Hij Ei Ej) as (L1 & L2 & _). destruct (H l) as [_ Hs]. lia.
+Qed.
+
+Theorem export_mutation_invisible s i :
+  Sep s ->
+  observe_graph (step s (MutateExport i)) = observe_graph s /\
+  (forall j, j <> i -> observe_export (step s (MutateExport i)) j = observe_export s j) /\
+  s_graph (step s (MutateExport i)) = s_graph s /\
+  s_exports (step s (MutateExport i)) = s_exports s.
+Proof.
+  intros H. cbn [step]. split; [|split; [|split; reflexivity]].
+  - unfold observe_graph. cbn [log_writes s_graph]. apply observe_log_writes.
+    intros l Hl Hw. exact (writes_disjoint_graph s i l H Hw Hl).
+  - intros j Hj. unfold observe_export. cbn [log_writes s_exports].
+    destruct (nth_error (s_exports s) j) as [e|] eqn:E; [|reflexivity].
+    apply observe_log_writes. intros l Hl Hw.
+    exact (writes_disjoint_export s i j e l H Hj E Hw Hl).
+Qed.
+
+(** Under [Sep'] the same holds for every export that was not made by a shallow copy … *)
+Theorem export_mutation_invisible' s i ei :
+  Sep' s -> nth_error (s_exports s) i = Some ei -> e_shallow ei = false ->
+  observe_graph (step s (MutateExport i)) = observe_graph s /\
+  (forall j, j <> i -> observe_export (step s (MutateExport i)) j = observe_export s j).
+Proof.
+  rewrite sep'_iff. intros H Ei Hsh. cbn [step]. unfold writes. rewrite Ei.
+  assert (Hd : forall x, cnt (e_inner ei) x = cnt (deep_inner ei) x)
+    by (intros x; unfold deep_inner; rewrite Hsh; reflexivity).
+  split.
+  - unfold observe_graph. cbn [log_writes s_graph]. apply observe_log_writes.
+    intros l Hl Hw. apply cnt_In in Hl, Hw. rewrite cnt_graph_locs in Hl.
+    rewrite cnt_e_reach, Hd in Hw.
+    destruct (export_le s i _ l Ei) as (L1 & _ & L3 & _). destruct (H l) as (_ & Hs & _). lia.
+  - intros j Hj. unfold observe_export. cbn [log_writes s_exports].
+    destruct (nth_error (s_exports s) j) as [ej|] eqn:Ej; [|reflexivity].
+    apply observe_log_writes. intros l Hl Hw. apply cnt_In in Hl, Hw.
+    rewrite cnt_e_reach in Hl, Hw. rewrite Hd in Hw. rewrite (e_inner_split ej) in Hl.
+    assert (Hij : i <> j) by congruence.
+    destruct (export_two_le s _ _ _ _ l Hij Ei Ej) as (L1 & _ & L3).
+    destruct (export_le s j _ l Ej) as (_ & _ & _ & L4).
+    destruct (H l) as (_ & Hs & Hc). lia.
+Qed.
+
+(** … and for EVERY export (shallow ones included) when only its containers are written. *)
+Theorem export_outer_mutation_invisible s i :
+  Sep' s ->
+  observe_graph (step s (MutateExportOuter i)) = observe_graph s /\
+  (forall j, j <> i -> observe_export (step s (MutateExportOuter i)) j = observe_export s j).
+Proof.
+  rewrite sep'_iff. intros H. cbn [step]. unfold writes_outer.
+  destruct (nth_error (s_exports s) i) as [ei|] eqn:Ei.
+  2:{ split; [|intros j _]; reflexivity. }
+  split.
+  - unfold observe_graph. cbn [log_writes s_graph]. apply observe_log_writes.
+    intros l Hl Hw. apply cnt_In in Hl, Hw. rewrite cnt_graph_locs in Hl.
+    destruct (export_le s i _ l Ei) as (L1 & _). destruct (H l) as (_ & Hs & _). lia.
+  - intros j Hj. unfold observe_export. cbn [log_writes s_exports].
+    destruct (nth_error (s_exports s) j) as [ej|] eqn:Ej; [|reflexivity].
+    apply observe_log_writes. intros l Hl Hw. apply cnt_In in Hl, Hw.
+    rewrite cnt_e_reach in Hl. rewrite (e_inner_split ej) in Hl.
+    assert (Hij : i <> j) by congruence.
+    destruct (export_two_le s _ _ _ _ l Hij Ei Ej) as (L1 & _ & _).
+    destruct (export_le s j _ l Ej) as (_ & _ & L3 & L4).
+    destruct (H l) as (_ & Hs & Hc). lia.
+Qed.
+
+(** With the carve-out the deep mutation of a [to_dict] result IS visible in the graph
+    (known finding F9, behavioural form). *)
+Theorem to_dict_nested_write_visible :
+  exists s i, Sep' s /\ observe_graph (step s (MutateExport i)) <> observe_graph s.
+Proof.
+  exists (step one_node_state (ExportDict [])), 0. split.
+  - apply sep'b_sound. vm_compute. reflexivity.
+  - vm_compute. discriminate.
+Qed.
+
+(** ** Later changes of the graph never reach an earlier export *)
+
+Definition is_graph_mutation (o : op) : bool :=
+  match o with MutateGraphMeta _ | MutateGraph _ => true | _ => false end.
+
+Lemma graph_mutation_log s o :
+  is_graph_mutation o = true ->
+  s_exports (step s o) = s_exports s /\
+  exists w, s_log (step s o) = w ++ s_log s /\
+            forall l, In l w -> In l (g_outer (s_graph s) ++ g_inner (s_graph s)).
+Proof.
+  destruct o as [x|k|m|i|i]; try discriminate; intros _; cbn [step].
+  - split; [reflexivity|]. exists [outer (g_meta (s_graph s))]. split; [reflexivity|].
+    intros l [<-|[]]. apply in_or_app; left. unfold g_outer; left; reflexivity.
+  - assert (Hidx : forall l, In l (g_lag_lists (s_graph s) ++ g_var_lists (s_graph s)) ->
+                             In l (g_outer (s_graph s) ++ g_inner (s_graph s))).
+    { intros l Hl. apply in_or_app; left. unfold g_outer, g_cells. right.
+      rewrite !in_app_iff in *. tauto. }
+    destruct m as [k nl nv|k|i|i|i|[|] i|]; unfold step_gmut;
+      try (split; [reflexivity|]; exists []; split; [reflexivity|intros l []]);
+      try (split; [reflexivity|];
+           exists (g_lag_lists (s_graph s) ++ g_var_lists (s_graph s));
+           split; [cbn [s_log]; rewrite app_assoc; reflexivity|exact Hidx]).
+    + destruct (nth_error (g_nodes (s_graph s)) i) as [old|].
+      * split; [reflexivity|].
+        exists (g_lag_lists (s_graph s) ++ g_var_lists (s_graph s));
+          split; [cbn [s_log]; rewrite app_assoc; reflexivity|exact Hidx].
+      * split; [reflexivity|]; exists []; split; [reflexivity|intros l []].
+    + split; [reflexivity|]. exists (g_outer (s_graph s) ++ g_inner (s_graph s)).
+      split; [cbn [s_log]; rewrite app_assoc; reflexivity|intros l Hl; exact Hl].
+Qed.
+
+Lemma observe_log_app s s' w ls :
+  s_log s' = w ++ s_log s -> (forall l, In l ls -> ~ In l w) -> observe s' ls = observe s ls.
+Proof.
+  intros E H. unfold observe. apply map_ext_in. intros l Hl.
+  unfold content. rewrite E. change (cnt (w ++ s_log s) l = cnt (s_log s) l).
+  rewrite cnt_app. apply H, cnt_notIn in Hl. lia.
+Qed.
+
+Theorem graph_mutation_invisible s o j :
+  Sep s -> is_graph_mutation o = true ->
+  observe_export (step s o) j = observe_export s j.
+Proof.
+  rewrite sep_iff. intros H Ho. destruct (graph_mutation_log s o Ho) as (He & w & Hlog & Hw).
+  unfold observe_export. rewrite He.
+  destruct (nth_error (s_exports s) j) as [e|] eqn:Ej; [|reflexivity].
+  apply (observe_log_app _ _ _ _ Hlog). intros l Hl Hin. apply Hw in Hin.
+  apply cnt_In in Hl, Hin. rewrite cnt_e_reach in Hl. rewrite cnt_graph_locs in Hin.
+  destruct (export_le s j _ l Ej) as (L1 & L2 & _). destruct (H l) as [_ Hs]. lia.
+Qed.
+
+Theorem graph_mutation_invisible' s o j e :
+  Sep' s -> is_graph_mutation o = true ->
+  nth_error (s_exports s) j = Some e -> e_shallow e = false ->
+  observe_export (step s o) j = observe_export s j.
+Proof.
+  rewrite sep'_iff. intros H Ho Ej Hsh.
+  destruct (graph_mutation_log s o Ho) as (He & w & Hlog & Hw).
+  unfold observe_export. rewrite He, Ej.
+  apply (observe_log_app _ _ _ _ Hlog). intros l Hl Hin. apply Hw in Hin.
+  apply cnt_In in Hl, Hin. rewrite cnt_e_reach in Hl. rewrite cnt_graph_locs in Hin.
+  assert (Hd : cnt (e_inner e) l = cnt (deep_inner e) l)
+    by (unfold deep_inner; rewrite Hsh; reflexivity).
+  destruct (export_le s j _ l Ej) as (L1 & _ & L3 & _). destruct (H l) as (_ & Hs & _). lia.
+Qed.
+
+(** * Producing an export never modifies the source graph *)
+
+Lemma export_with_exports kind nl el gl ns es gm src extra fr s :
+  exists e, s_exports (export_with kind nl el gl ns es gm src extra fr s) = s_exports s ++ [e].
+Proof.
+  unfold export_with.
+  destruct (copy_mrefs gl (s_next s) gm) as [gm' n1].
+  destruct (copy_cells gl n1 src extra) as [cs' n2].
+  destruct (copy_mrefs nl n2 ns) as [ns' n3].
+  destruct (copy_mrefs el n3 es) as [es' n4].
+  cbn [s_exports]. eexists. reflexivity.
+Qed.
+
+Lemma export_with_graph_log kind nl el gl ns es gm src extra fr s :
+  s_graph (export_with kind nl el gl ns es gm src extra fr s) = s_graph s /\
+  s_log (export_with kind nl el gl ns es gm src extra fr s) = s_log s.
+Proof.
+  unfold export_with.
+  destruct (copy_mrefs gl (s_next s) gm) as [gm' n1].
+  destruct (copy_cells gl n1 src extra) as [cs' n2].
+  destruct (copy_mrefs nl n2 ns) as [ns' n3].
+  destruct (copy_mrefs el n3 es) as [es' n4].
+  split; reflexivity.
+Qed.
+
+(** No export / derived-graph operation changes the graph's metadata containers, its nodes,
+    its edges, its index lists, a cache that was already filled, any stored content, or any
+    export handed out earlier; the only effect is that an EMPTY cache slot may get filled. *)
+Theorem producing_is_readonly s (x : xop) :
+  let s' := step s x in
+  graph_core (s_graph s') = graph_core (s_graph s) /\
+  slot_kept (g_nx (s_graph s)) (g_nx (s_graph s')) /\
+  slot_kept (g_adj (s_graph s)) (g_adj (s_graph s')) /\
+  slot_kept (g_variables (s_graph s)) (g_variables (s_graph s')) /\
+  s_log s' = s_log s /\
+  (exists e, s_exports s' = s_exports s ++ [e]) /\
+  (forall ls, observe s' ls = observe s ls).
+Proof.
+  cbn [step]. unfold step_export.
+  destruct (levels_of x) as [[nl el] gl].
+  destruct (fill_caches_delta (fills x) s) as (_ & He & Hl & Hc & K1 & K2 & K3 & _).
+  set (s1 := fill_caches (fills x) s) in *.
+  destruct (export_with_graph_log (kind_of x) nl el gl (x_nodes x (s_graph s1))
+              (x_edges x (s_graph s1)) (x_gmeta x (s_graph s1)) (x_src_cells x (s_graph s1))
+              (x_extra x (s_graph s1)) (x_fresh x) s1) as [Hg Hlog].
+  destruct (export_with_exports (kind_of x) nl el gl (x_nodes x (s_graph s1))
+              (x_edges x (s_graph s1)) (x_gmeta x (s_graph s1)) (x_src_cells x (s_graph s1))
+              (x_extra x (s_graph s1)) (x_fresh x) s1) as [e Hexp].
+  rewrite Hg, Hlog, Hexp, He, Hl.
+  repeat (split; [assumption || reflexivity|]).
+  split; [exists e; reflexivity|].
+  intros ls. unfold observe, content. rewrite Hlog, Hl. reflexivity.
+Qed.
+
+(** * The invariants in the words of the property *)
+
+Lemma cnt_graph_reach g x :
+  cnt (reach (graph_holders g)) x = cnt (g_outer g) x + cnt (g_inner g) x.
+Proof. unfold reach. rewrite cnt_app, graph_holders_outer, graph_holders_inner. reflexivity. Qed.
+
+(** An export never reaches an identity of the graph … *)
+Theorem sep_graph_export_disjoint s i e l :
+  Sep s -> nth_error (s_exports s) i = Some e ->
+  In l (e_reach e) -> ~ In l (reach (graph_holders (s_graph s))).
+Proof.
+  rewrite sep_iff. intros H E Hl. apply cnt_In in Hl. apply cnt_notIn.
+  rewrite cnt_graph_reach. rewrite cnt_e_reach in Hl. fold (GO s l) (GI s l).
+  destruct (export_le s i _ l E) as (L1 & L2 & _). destruct (H l) as [_ Hs]. lia.
+Qed.
+
+(** … two different exports never reach a common identity … *)
+Theorem sep_exports_disjoint s i j ei ej l :
+  Sep s -> i <> j -> nth_error (s_exports s) i = Some ei -> nth_error (s_exports s) j = Some ej ->
+  In l (e_reach ei) -> ~ In l (e_reach ej).
+Proof.
+  rewrite sep_iff. intros H Hij Ei Ej Hl. apply cnt_In in Hl. apply cnt_notIn.
+  rewrite cnt_e_reach in *.
+  destruct (export_two_le s _ _ _ _ l Hij Ei Ej) as (L1 & L2 & _). destruct (H l) as [_ Hs]. lia.
+Qed.
+
+(** … and inside one export (one derived graph) no identity is reached twice: distinct nodes
+    and edges never share a metadata container or a nested value. *)
+Theorem sep_export_internal s i e :
+  Sep s -> nth_error (s_exports s) i = Some e -> NoDup (e_reach e).
+Proof.
+  rewrite sep_iff. intros H E. apply cnt_NoDup. intros x. rewrite cnt_e_reach.
+  destruct (export_le s i _ x E) as (L1 & L2 & _). destruct (H x) as [_ Hs]. lia.
+Qed.
+
+Theorem sep_graph_internal s : Sep s -> NoDup (reach (graph_holders (s_graph s))).
+Proof.
+  rewrite sep_iff. intros H. apply cnt_NoDup. intros x. rewrite cnt_graph_reach.
+  fold (GO s x) (GI s x). destruct (H x) as [_ Hs]. lia.
+Qed.
+
+(** The container-level versions hold under [Sep'], i.e. after EVERY history. *)
+Theorem sep'_graph_export_outer_disjoint s i e l :
+  Sep' s -> nth_error (s_exports s) i = Some e ->
+  In l (e_outer e) -> ~ In l (reach (graph_holders (s_graph s))).
+Proof.
+  rewrite sep'_iff. intros H E Hl. apply cnt_In in Hl. apply cnt_notIn.
+  rewrite cnt_graph_reach. fold (GO s l) (GI s l).
+  destruct (export_le s i _ l E) as (L1 & _). destruct (H l) as (_ & Hs & _). lia.
+Qed.
+
+Theorem sep'_exports_outer_disjoint s i j ei ej l :
+  Sep' s -> i <> j -> nth_error (s_exports s) i = Some ei -> nth_error (s_exports s) j = Some ej ->
+  In l (e_outer ei) -> ~ In l (e_reach ej).
+Proof.
+  rewrite sep'_iff. intros H Hij Ei Ej Hl. apply cnt_In in Hl. apply cnt_notIn.
+  rewrite cnt_e_reach, (e_inner_split ej).
+  destruct (export_two_le s _ _ _ _ l Hij Ei Ej) as (L1 & _ & _).
+  destruct (export_le s j _ l Ej) as (_ & _ & L3 & L4).
+  destruct (H l) as (_ & Hs & Hc). lia.
+Qed.
+
+(** Distinct holders (graph-level holder, nodes, edges) of one export never share a container. *)
+Theorem sep'_holders_outer_disjoint s i e a b h1 h2 l :
+  Sep' s -> nth_error (s_exports s) i = Some e -> a <> b ->
+  nth_error (e_holders e) a = Some h1 -> nth_error (e_holders e) b = Some h2 ->
+  In l (holder_outer h1) -> ~ In l (holder_outer h2).
+Proof.
+  rewrite sep'_iff. intros H E Hab Ha Hb Hl. apply cnt_In in Hl. apply cnt_notIn.
+  pose proof (cnt_flat_map_two holder_outer _ _ _ _ _ l Hab Ha Hb) as L0.
+  fold (reach_outer (e_holders e)) in L0. fold (e_outer e) in L0.
+  destruct (export_le s i _ l E) as (L1 & _). destruct (H l) as (_ & Hs & _). lia.
+Qed.
+
+(** A derived graph (any export not made by a shallow copy) is fully separated under [Sep']. *)
+Theorem sep'_deep_export_separated s i e :
+  Sep' s -> nth_error (s_exports s) i = Some e -> e_shallow e = false ->
+  NoDup (e_reach e) /\
+  (forall l, In l (e_reach e) -> ~ In l (reach (graph_holders (s_graph s)))) /\
+  (forall j ej l, j <> i -> nth_error (s_exports s) j = Some ej ->
+                  In l (e_reach e) -> ~ In l (e_reach ej)).
+Proof.
+  rewrite sep'_iff. intros H E Hsh.
+  assert (Hd : forall x, cnt (e_inner e) x = cnt (deep_inner e) x)
+    by (intros x; unfold deep_inner; rewrite Hsh; reflexivity).
+  split; [|split].
+  - apply cnt_NoDup. intros x. rewrite cnt_e_reach, Hd.
+    destruct (export_le s i _ x E) as (L1 & _ & L3 & _). destruct (H x) as (_ & Hs & _). lia.
+  - intros l Hl. apply cnt_In in Hl. apply cnt_notIn. rewrite cnt_graph_reach.
+    fold (GO s l) (GI s l). rewrite cnt_e_reach, Hd in Hl.
+    destruct (export_le s i _ l E) as (L1 & _ & L3 & _). destruct (H l) as (_ & Hs & _). lia.
+  - intros j ej l Hj Ej Hl. apply cnt_In in Hl. apply cnt_notIn.
+    rewrite cnt_e_reach, Hd in Hl. rewrite cnt_e_reach, (e_inner_split ej).
+    assert (Hij : i <> j) by congruence.
+    destruct (export_two_le s _ _ _ _ l Hij E Ej) as (L1 & _ & L3).
+    destruct (export_le s j _ l Ej) as (_ & _ & _ & L4).
+    destruct (H l) as (_ & Hs & Hc). lia.
+Qed.
+
+(** * Non-vacuity and pinning examples *)
+
+Definition ex_shape : shape :=
+  {| sh_nodes := [0; 1; 1]; sh_edges := [0]; sh_fresh_nodes := 0; sh_cells := 3 |}.
+
+(** A graph with nested mutable metadata on the graph, two nodes and an edge; then three
+    exports (networkx, dictionary, numpy), a derived graph (minimal), mutations of an export and
+    of the graph, a copy, and a second networkx export. *)
+Definition ex_ops : list op :=
+  [ MutateGraphMeta 2;
+    MutateGraph (GAddNode 2 true true); MutateGraph (GAddNode 1 false true);
+    MutateGraph (GAddEdge 2);
+    X ExportNx; X (ExportDict [0; 1]); X (ExportAdj true); X (Minimal ex_shape);
+    MutateExport 3; MutateGraph GWriteAll; MutateGraph (GReplaceNode 0);
+    X Copy; X ExportNx ].
+
+Example ex_run_sep' :
+  Sep' (run init ex_ops) /\ length (s_exports (run init ex_ops)) = 6 /\
+  sep'b (run init ex_ops) = true /\ sep_outerb (run init ex_ops) = true /\
+  sepb (run init ex_ops) = false.
+Proof. split; [apply sep_run_init|]. vm_compute. repeat split. Qed.
+
+(** The same history without [to_dict] satisfies full [Sep]. *)
+Definition ex_ops_nodict : list op :=
+  filter (fun o => negb (op_is_to_dict o)) ex_ops.
+
+Example ex_run_sep :
+  Sep (run init ex_ops_nodict) /\ length (s_exports (run init ex_ops_nodict)) = 5 /\
+  length (all_locs (run init ex_ops_nodict)) = 49.
+Proof.
+  split; [apply sep_full_run; [vm_compute; reflexivity|apply sep_init]|].
+  vm_compute. split; reflexivity.
+Qed.
+
+(** The hypotheses of [export_mutation_invisible'] are met by the derived graph of [ex_ops]. *)
+Example ex_derived_graph_mutation_invisible :
+  let s := run init ex_ops in
+  exists e, nth_error (s_exports s) 3 = Some e /\ e_shallow e = false /\ e_kind e = 21%N /\
+            length (e_reach e) = 16 /\
+            observe_graph (step s (MutateExport 3)) = observe_graph s.
+Proof.
+  eexists. split; [vm_compute; reflexivity|]. split; [reflexivity|]. split; [reflexivity|].
+  split; [reflexivity|].
+  eapply export_mutation_invisible'; [apply sep_run_init|vm_compute; reflexivity|reflexivity].
+Qed.
+
+(** Levels read from the table, as measured on the Python objects. *)
+Example levels_to_dict : levels_of (ExportDict []) = (LShallow, LShallow, LShallow).
+Proof. vm_compute; reflexivity. Qed.
+Example levels_to_networkx : levels_of ExportNx = (LNone, LNone, LDeep).
+Proof. vm_compute; reflexivity. Qed.
+Example levels_nodes_at_lag : levels_of (ExportNodesAtLag false 0) = (LHandle, LHandle, LDeep).
+Proof. vm_compute; reflexivity. Qed.
+Example levels_copy : levels_of Copy = (LDeep, LDeep, LDeep).
+Proof. vm_compute; reflexivity. Qed.
+Example levels_all_derived_deep :
+  forallb (fun x => match levels_of x with (LDeep, LDeep, LDeep) => true | _ => false end)
+    [Copy; Minimal ex_shape; Extend ex_shape; Stationary ex_shape; Summary ex_shape;
+     SubGraph false ex_shape; SubGraph true ex_shape; ParentsGraph false ex_shape;
+     ParentsGraph true ex_shape; ClassConvert false; ClassConvert true] = true.
+Proof. vm_compute; reflexivity. Qed.
+
+(** Measured: the FIRST [to_networkx()] fills the cache and returns a copy of it; the second
+    returns another copy (three different objects). *)
+Example nx_first_and_second_call :
+  let s := run init [X ExportNx; X ExportNx] in
+  g_nx (s_graph s) = Some 1 /\
+  map (fun e => flat_map h_cells (e_holders e)) (s_exports s) = [[2]; [3]].
+Proof. vm_compute. split; reflexivity. Qed.
+
+(** Measured: [get_nodes_at_lag] returns a new list each time, never the index list. *)
+Example nodes_at_lag_is_a_new_list :
+  let s := run one_node_state [X (ExportNodesAtLag false 0); X (ExportNodesAtLag false 0);
+                               X (ExportNodesAtLag false 7)] in
+  g_lag_lists (s_graph s) = [3] /\
+  map (fun e => (flat_map h_meta (e_holders e), flat_map h_cells (e_holders e))) (s_exports s)
+    = [([], [5]); ([], [6]); ([], [7])].
+Proof. vm_compute. split; reflexivity. Qed.
+
+(** Measured: [copy()] shares nothing; [replace_node] keeps the nested values of the removed
+    node inside the graph. *)
+Example copy_is_deep_replace_is_shallow :
+  let s := run one_node_state [X Copy; MutateGraph (GReplaceNode 0)] in
+  g_nodes (s_graph s) = [{| outer := 10; inner := [2] |}] /\
+  map (fun e => flat_map h_meta (e_holders e)) (s_exports s)
+    = [[{| outer := 5; inner := [] |}; {| outer := 8; inner := [9] |}]] /\
+  sepb s = true.
+Proof. vm_compute. repeat split. Qed.
+
+(** The model is sensitive to the table: at level "alias" (what the first [to_networkx()] call
+    did before the repair — it returned the cache object) even container-level separation
+    fails, and so does it for an "alias" of node metadata. *)
+Example alias_level_breaks_separation :
+  let s := fill_caches (true, false, false) one_node_state in
+  sep_outerb s = true /\
+  sep_outerb (export_with 10 LNone LNone LAlias [] [] [] (opt (g_nx (s_graph s))) 0 0 s) = false /\
+  sep_outerb (export_with 20 LAlias LDeep LDeep (g_nodes (s_graph s)) [] [] [] 0 0 s) = false.
+Proof. vm_compute. repeat split. Qed.
